@@ -957,6 +957,8 @@ def check(case, run, stats=None):
                 return [V('C10', 'C10.step-ran-too-early', 'plain',
                           'step %r was created during this phase and already runs in it' % (p_,), seq)]
             phase['ran'].add(p_)
+        elif k == 'OPEND' and ev.get('exc'):
+            phase = None      # the phase was cut short by an exception, judged below
         elif k in ('POLL', 'NU', 'EMIT', 'OPEND') or (
                 k == 'COND' and (m.live_parties().get(tuple(ev.get('path') or ())) or {}).get('kind') != 'step'):
             err = end_phase(seq)
